@@ -2,5 +2,256 @@
 
 package main
 
-// C04 part (MergeSearchResults / CalculateCursor); filled in below.
-func mergeMain(args []string) {}
+// C04: MergeSearchResults on generated per-shard result sets, and
+// CalculateCursor against the index key of the last item.
+
+import (
+	"bytes"
+	"encoding/base64"
+	"encoding/hex"
+	"encoding/json"
+	"os"
+	"slices"
+	"strconv"
+	"strings"
+
+	"github.com/google/uuid"
+	"github.com/mr-tron/base58"
+	"github.com/nspcc-dev/neofs-node/internal/signed256"
+	objectcore "github.com/nspcc-dev/neofs-node/pkg/core/object"
+	"github.com/nspcc-dev/neofs-sdk-go/client"
+	"github.com/nspcc-dev/neofs-sdk-go/object"
+	oid "github.com/nspcc-dev/neofs-sdk-go/object/id"
+)
+
+// a searchable item as one shard would return it for a primary attribute
+type mItem struct {
+	ID   oid.ID
+	Text string // attribute value as returned in SearchResultItem.Attributes[0]
+	Raw  []byte // value part of the index key (what the shards sort by)
+}
+
+type attrKind struct {
+	Name   string // comparator class name for the model
+	Attr   string
+	CmpInt bool
+	Op     object.SearchMatchType
+}
+
+var mergeKinds = []attrKind{
+	{"none", "", false, object.MatchStringEqual},
+	{"str", "A", false, object.MatchCommonPrefix},
+	{"int", "N", true, object.MatchNumGE},
+	{"owner", object.FilterOwnerID, false, object.MatchStringNotEqual},
+	{"parent", object.FilterParentID, false, object.MatchStringNotEqual},
+	{"first", object.FilterFirstSplitObject, false, object.MatchStringNotEqual},
+	{"associate", object.AttributeAssociatedObject, false, object.MatchStringNotEqual},
+	{"checksum", object.FilterPayloadChecksum, false, object.MatchStringNotEqual},
+	{"splitid", object.FilterSplitID, false, object.MatchStringNotEqual},
+}
+
+func genValue(k attrKind) (string, []byte) {
+	switch k.Name {
+	case "none":
+		return "", nil
+	case "str":
+		v := pick(strVals)
+		return v, []byte(v)
+	case "int":
+		v := pick(intVals)
+		n, _ := signed256.ParseDecimal(v)
+		e := n.EncodeBytes()
+		return n.String(), e[:] // shards return the normalized decimal
+	case "owner":
+		u := pick(owners)
+		return base58.Encode(u[:]), u[:]
+	case "parent", "first", "associate":
+		var id oid.ID
+		switch rnd.intn(3) {
+		case 0:
+			id = pick(refPool)
+		case 1:
+			id = pick(idPool)
+		default:
+			for i := range id {
+				id[i] = byte(rnd.next())
+			}
+			if rnd.chance(50) {
+				id[0] = 0 // leading zero bytes change the base58 length
+			}
+		}
+		return base58.Encode(id[:]), id[:]
+	case "checksum":
+		s := pick(sums)
+		return hex.EncodeToString(s[:]), s[:]
+	default: // splitid
+		s := pick(splitIDs)
+		u, _ := uuid.FromBytes(s)
+		return u.String(), s
+	}
+}
+
+func indexLess(a, b mItem) int {
+	if c := bytes.Compare(a.Raw, b.Raw); c != 0 {
+		return c
+	}
+	return bytes.Compare(a.ID[:], b.ID[:])
+}
+
+type mergeOut struct {
+	K     string     `json:"k"`
+	Kind  string     `json:"kind"`
+	Lim   int        `json:"lim"`
+	Sets  [][]mJSON  `json:"sets"`
+	Mores []bool     `json:"mores"`
+	Err   bool       `json:"err"`
+	Res   []mJSON    `json:"res"`
+	More  bool       `json:"more"`
+	Class string     `json:"class"`
+}
+
+type mJSON struct {
+	ID   string `json:"id"`
+	Text string `json:"text"`
+	Raw  string `json:"raw"`
+}
+
+func toJSON(it mItem) mJSON { return mJSON{hx(it.ID[:]), hx([]byte(it.Text)), hx(it.Raw)} }
+
+func runMerge(k attrKind, lim int, sets [][]mItem, mores []bool, class string) mergeOut {
+	out := mergeOut{K: "merge", Kind: k.Name, Lim: lim, Mores: mores, Class: class, Sets: [][]mJSON{}, Res: []mJSON{}}
+	in := make([][]client.SearchResultItem, len(sets))
+	byKey := map[string]mItem{}
+	for i := range sets {
+		out.Sets = append(out.Sets, []mJSON{})
+		for _, it := range sets[i] {
+			out.Sets[i] = append(out.Sets[i], toJSON(it))
+			ri := client.SearchResultItem{ID: it.ID}
+			if k.Attr != "" {
+				ri.Attributes = []string{it.Text}
+			}
+			in[i] = append(in[i], ri)
+			byKey[string(it.ID[:])+"|"+it.Text] = it
+		}
+	}
+	res, more, err := objectcore.MergeSearchResults(uint16(lim), k.Attr, k.CmpInt, in, slices.Clone(mores))
+	if err != nil {
+		out.Err = true
+		return out
+	}
+	out.More = more
+	for _, r := range res {
+		t := ""
+		if len(r.Attributes) > 0 {
+			t = r.Attributes[0]
+		}
+		out.Res = append(out.Res, toJSON(byKey[string(r.ID[:])+"|"+t]))
+	}
+	return out
+}
+
+func mergeGen(n int) {
+	enc := json.NewEncoder(os.Stdout)
+	for c := 0; c < n; c++ {
+		k := pick(mergeKinds)
+		// corpus: each ID has one value
+		nObj := 2 + rnd.intn(9)
+		var all []mItem
+		ids := slices.Clone(idPool)
+		for i := len(ids) - 1; i > 0; i-- {
+			j := rnd.intn(i + 1)
+			ids[i], ids[j] = ids[j], ids[i]
+		}
+		for _, id := range ids[:min(nObj, len(ids))] {
+			t, r := genValue(k)
+			all = append(all, mItem{id, t, r})
+		}
+		lim := pick([]int{1, 2, 3, 1000})
+		nSets := 1 + rnd.intn(4)
+		sets := make([][]mItem, nSets)
+		mores := make([]bool, nSets)
+		class := "sorted"
+		for i := range sets {
+			for _, it := range all {
+				if rnd.chance(60) {
+					sets[i] = append(sets[i], it)
+				}
+			}
+			slices.SortFunc(sets[i], indexLess) // every shard returns its objects in index order
+			if len(sets[i]) > lim {
+				sets[i], mores[i] = sets[i][:lim], true
+			}
+		}
+		if rnd.chance(8) { // malformed stream: unsorted set
+			i := rnd.intn(nSets)
+			slices.Reverse(sets[i])
+			class = "unsorted"
+		}
+		_ = enc.Encode(runMerge(k, lim, sets, mores, class))
+	}
+}
+
+// CalculateCursor vs the index key, for every primary attribute class
+type cursorOut struct {
+	K      string `json:"k"`
+	Kind   string `json:"kind"`
+	Attr   string `json:"attr"`
+	Op     int    `json:"op"`
+	ID     string `json:"id"`
+	Text   string `json:"text"`
+	Raw    string `json:"raw"`
+	Err    bool   `json:"err"`
+	Cursor string `json:"cursor"`
+	Key    string `json:"key"`      // the index key of the item without its first byte (what a shard returns)
+	Accept bool   `json:"accepted"` // PreprocessSearchQuery accepts the recomputed cursor
+}
+
+func cursorGen(n int) {
+	enc := json.NewEncoder(os.Stdout)
+	for c := 0; c < n; c++ {
+		k := pick(mergeKinds[1:])
+		t, r := genValue(k)
+		id := pick(idPool)
+		var fs object.SearchFilters
+		fv := t
+		if k.CmpInt {
+			fv = "-" + max256 // >= min: every integer matches
+		} else if k.Op == object.MatchStringNotEqual {
+			fv = "x"
+		} else {
+			fv = t[:1]
+		}
+		fs.AddFilter(k.Attr, fv, k.Op)
+		out := cursorOut{K: "cursor", Kind: k.Name, Attr: hx([]byte(k.Attr)), Op: int(k.Op), ID: hx(id[:]), Text: hx([]byte(t)), Raw: hx(r)}
+		var key []byte
+		if k.CmpInt {
+			key = slices.Concat([]byte(k.Attr), []byte{0}, r, id[:])
+		} else {
+			key = slices.Concat([]byte(k.Attr), []byte{0}, r, []byte{0}, id[:])
+		}
+		out.Key = hx(key)
+		cur, err := objectcore.CalculateCursor(&fs[0], client.SearchResultItem{ID: id, Attributes: []string{t}})
+		if err != nil {
+			out.Err = true
+		} else {
+			out.Cursor = hx(cur)
+			_, _, perr := objectcore.PreprocessSearchQuery(fs, []string{k.Attr}, base64Std(cur))
+			out.Accept = perr == nil
+		}
+		_ = enc.Encode(out)
+	}
+}
+
+func mergeMain(args []string) {
+	n, _ := strconv.Atoi(args[1])
+	switch args[0] {
+	case "mergegen":
+		mergeGen(n)
+	case "merge": // cursors
+		cursorGen(n)
+	}
+}
+
+var _ = strings.Compare
+
+func base64Std(b []byte) string { return base64.StdEncoding.EncodeToString(b) }
